@@ -26,6 +26,8 @@ RAW_HEADER_SETS = [
     [("Content-Type", "text/plain"), ("Set-Cookie", "p=1; Path=/caf\xe9"), ("Set-Cookie", "q=\xfc; HttpOnly"), ("X-Name", "J\xf6rg")],
     # field names are case-insensitive: other spellings of the same header
     [("CONTENT-TYPE", "text/plain"), ("Set-cookie", "a=1"), ("SET-COOKIE", "b=2; Path=/"), ("set-Cookie", "c=3")],
+    # repeated lines whose values contain one another, and exact duplicates
+    [("Content-Type", "text/plain"), ("Vary", "Accept-Encoding"), ("Vary", "Accept"), ("X-Dup", "a"), ("X-Dup", "a"), ("Set-Cookie", "sid=old; Max-Age=0"), ("Set-Cookie", "sid=new")],
 ]
 
 
@@ -51,6 +53,28 @@ def normalise(header_list):
             per.setdefault(k, []).append(v)
     out.extend((k, ", ".join(vs)) for k, vs in per.items())
     return sorted(out)
+
+
+def unboundary(res):
+    """The multipart/byteranges boundary is a fresh random token per response (and, with two requests in flight, whichever
+    request draws first gets the first one): compare responses with the token replaced by a fixed word."""
+    for r in (res, res.get("second")):
+        if not r or not r.get("headers"):
+            continue
+        for k, v in r["headers"]:
+            if k == "content-type" and v.lower().startswith("multipart/byteranges") and "boundary=" in v:
+                tok = v.split("boundary=", 1)[1].split(";")[0].strip().strip('"')
+                if tok:
+                    r["headers"] = sorted((hk, hv.replace(tok, "BOUNDARY") if hk == "content-type" else hv) for hk, hv in r["headers"])
+                    if isinstance(r.get("body"), (bytes, bytearray)):
+                        r["body"] = bytes(r["body"]).replace(tok.encode("latin-1"), b"BOUNDARY")
+                break
+    return res
+
+
+def cookie_seq(header_list):
+    """Set-Cookie lines in emission order: a user agent applies them in that order (the later one of a name wins)."""
+    return [v for k, v in header_list if k == "set-cookie"]
 
 
 class C20(Prop):
@@ -122,6 +146,9 @@ class C20(Prop):
         plan["post"] = {"size": t.choice([1, 10, 5000]), "pieces": 1 + t.draw(3), "delay": t.choice([0.0, 0.0, 0.1])} if t.draw(6) == 0 else None
         # the receive channel has nothing to offer after the request (raises when asked again)
         plan["recv_raises"] = t.draw(8) == 0
+        # the view reads the request body (its own way); identity decorators may have looked at it before
+        plan["view_reads"] = t.choice([None, None, "stream", "body"]) if inner_kind == "view" else None
+        plan["dec_peeks"] = t.draw(3) == 0
         return plan
 
     def describe(self, plan, variant=None):
@@ -147,11 +174,21 @@ class C20(Prop):
                     counter["inner"] += 1
                     if plan["inner"] == "view-raises":
                         raise boom
-                    return recipes.build(plan["recipe"], "wsgi", self.fs, {"boom": boom, "sleep": sleep})
+                    note = None
+                    if plan.get("view_reads") == "stream":       # the view reads the request body its own way
+                        note = sum(len(c) for c in request.stream())
+                    elif plan.get("view_reads") == "body":
+                        note = len(request.body)
+                    resp = recipes.build(plan["recipe"], "wsgi", self.fs, {"boom": boom, "sleep": sleep})
+                    if note is not None:
+                        resp.headers["x-read"] = str(note)
+                    return resp
 
                 for _ in decs:
                     @M.decorator
                     def ident(request, next_call):
+                        if plan.get("dec_peeks"):                # an identity decorator that looks at the body (logging, a signature check)
+                            request.body
                         return next_call(request)
                     view = ident(view)
             else:
@@ -159,11 +196,23 @@ class C20(Prop):
                     counter["inner"] += 1
                     if plan["inner"] == "view-raises":
                         raise boom
-                    return recipes.build(plan["recipe"], "asgi", self.fs, {"boom": boom})
+                    note = None
+                    if plan.get("view_reads") == "stream":
+                        note = 0
+                        async for c in request.stream():
+                            note += len(c)
+                    elif plan.get("view_reads") == "body":
+                        note = len(await request.body)
+                    resp = recipes.build(plan["recipe"], "asgi", self.fs, {"boom": boom})
+                    if note is not None:
+                        resp.headers["x-read"] = str(note)
+                    return resp
 
                 for _ in decs:
                     @M.decorator
                     async def ident(request, next_call):
+                        if plan.get("dec_peeks"):
+                            await request.body
                         return await next_call(request)
                     view = ident(view)
             app = M.request_response(view)
@@ -293,8 +342,8 @@ class C20(Prop):
                     random.seed(777)
                     peer2 = WsgiPeer(ctx, ctx.sched, req, surface="wsgi-%s-2nd" % ("wrapped" if wrapped else "bare"))
                     peer2.run(app)
-                    out["second"] = {"status": peer2.status, "headers": normalise(peer2.header_list()), "body": peer2.body, "exc": peer2.exc or peer2.close_exc}
-            out.update(status=peer.status, headers=normalise(peer.header_list()), body=peer.body, exc=peer.exc or peer.close_exc)
+                    out["second"] = {"status": peer2.status, "headers": normalise(peer2.header_list()), "cookies": cookie_seq(peer2.header_list()), "body": peer2.body, "exc": peer2.exc or peer2.close_exc}
+            out.update(status=peer.status, headers=normalise(peer.header_list()), cookies=cookie_seq(peer.header_list()), body=peer.body, exc=peer.exc or peer.close_exc)
             return out
         lats = {"fast": (0.0,), "mixed": (0.0, 0.0, 0.2, 1.0)}[plan["lat"]]
 
@@ -325,10 +374,10 @@ class C20(Prop):
                     peer2 = AsgiHttpPeer(loop, ctx, ctx.sched, req, script, zerocopy=plan["zerocopy"], send_lats=lats, recv_raises_after_script=plan.get("recv_raises", False), surface="asgi-%s-2nd" % ("wrapped" if wrapped else "bare"))
                     second = (peer2, await one(peer2))
             await asyncio.sleep(0.01)
-            res = {"status": peer.status, "headers": normalise(peer.header_list()), "body": peer.body, "exc": exc, "complete": peer.complete}
+            res = {"status": peer.status, "headers": normalise(peer.header_list()), "cookies": cookie_seq(peer.header_list()), "body": peer.body, "exc": exc, "complete": peer.complete}
             if second is not None:
                 p2, e2 = second
-                res["second"] = {"status": p2.status, "headers": normalise(p2.header_list()), "body": p2.body, "exc": e2}
+                res["second"] = {"status": p2.status, "headers": normalise(p2.header_list()), "cookies": cookie_seq(p2.header_list()), "body": p2.body, "exc": e2}
             return res
 
         try:
@@ -373,8 +422,8 @@ class C20(Prop):
         old_spool = CachedStream.spool_max_size
         CachedStream.spool_max_size = plan["spool"]
         try:
-            bare = self._run(plan, ctx, False, boom)
-            wrapped = self._run(plan, ctx, True, boom)
+            bare = unboundary(self._run(plan, ctx, False, boom))
+            wrapped = unboundary(self._run(plan, ctx, True, boom))
         finally:
             CachedStream.spool_max_size = old_spool
         tag = "%s|%s" % (iface, plan["inner"] if plan["inner"] != "view" else plan["recipe"]["kind"])
@@ -423,6 +472,8 @@ class C20(Prop):
             folded = any(hk == "set-cookie" and hk in {m[0] for m in missing} and any(m[1] in v for m in missing) for hk, v in extra)
             clause = "set-cookie-lines-folded" if folded else "headers-differ"
             ctx.violate("C20|%s|%s|%s" % (tag, clause, ",".join(names)[:60]), "expected-but-missing %r, unexpected %r %s" % (missing, extra, where))
+        if sorted(bare.get("cookies") or []) == sorted(wrapped.get("cookies") or []) and (bare.get("cookies") or []) != (wrapped.get("cookies") or []):
+            ctx.violate("C20|%s|set-cookie-lines-reordered" % tag, "bare %r, wrapped %r %s" % (bare.get("cookies"), wrapped.get("cookies"), where))
         if bare["body"] != wrapped["body"]:
             b, w = bare["body"], wrapped["body"]
             kind = "empty" if not w else ("duplicated-prefix" if w[len(w) - len(b):] == b and len(w) > len(b) else "other")
